@@ -694,8 +694,8 @@ func Run(cfg *common.Config) (*common.Report, error) {
 		&StressCfg{Mode: "cache", Seed: r.Int63n(1 << 30), Goroutines: 2 + r.Intn(15), Ops: cfg.Pick(400, 2000), Clock: "mono"})
 	// the mix: expiring entries (cold start), then no expiry with a warm second round
 	plan = append(plan,
-		&StressCfg{Mode: "mix", Seed: r.Int63n(1 << 30), Goroutines: 16 + r.Intn(49), Ops: cfg.Pick(8, 20), TTLms: 1 + r.Intn(4), Rounds: 1},
-		&StressCfg{Mode: "mix", Seed: r.Int63n(1 << 30), Goroutines: 2 + r.Intn(15), Ops: cfg.Pick(10, 30), TTLms: 0, Rounds: 2, Quiet: true})
+		&StressCfg{Mode: "mix", Seed: r.Int63n(1 << 30), Goroutines: 16 + r.Intn(49), Ops: cfg.Pick(12, 20), TTLms: 1 + r.Intn(4), Rounds: 2},
+		&StressCfg{Mode: "mix", Seed: r.Int63n(1 << 30), Goroutines: 2 + r.Intn(15), Ops: cfg.Pick(12, 30), TTLms: 0, Rounds: 2, Quiet: true})
 	if cfg.Thorough() {
 		for i := 0; i < 14; i++ {
 			plan = append(plan, &StressCfg{Mode: "mix", Seed: r.Int63n(1 << 30), Goroutines: pickN(), Ops: 20, TTLms: []int{0, 1, 2, 5, 20, 100, 3}[i%7], Rounds: 1 + i%3, Quiet: i%2 == 0})
@@ -711,6 +711,10 @@ func Run(cfg *common.Config) (*common.Report, error) {
 		}
 		judge(rep, sc, res, "")
 		account(rep, sc, res)
+		if res.TimedOut {
+			rep.Notes = append(rep.Notes, "a stress run hung; the remaining stress runs are skipped")
+			break
+		}
 		rep.Count("stress-runs/" + sc.Mode)
 		rep.Count(fmt.Sprintf("stress-goroutines/%s", bucket(sc.Goroutines)))
 	}
